@@ -1,6 +1,7 @@
 (* C15 -- introspection reports exactly the schema.
    Statements only; proofs are in Proofs/IntrospectProofs.v.
    Model: Schema/IntrospectModel.v.  Spec: Spec/IntrospectSpec.v. *)
+From PyGql Require Exec.ExecModel Proofs.IntrospectExecProofs.
 From PyGql Require Import Spec.IntrospectSpec Proofs.IntrospectProofs.
 From Coq Require Import Sorting.Permutation Sorting.Sorted.
 
@@ -61,30 +62,68 @@ Print Assumptions C15_sorted.
 
 (* Exactness: reading the answer of the standard introspection query back
    yields precisely the public part of the schema -- for every schema whose
-   type references fit the seven ofType levels of the query and whose
-   defaults are of the kinds that _format_default_value renders in GraphQL
-   syntax (null; booleans, integers and strings free of characters needing
-   an escape, at scalar-typed positions). *)
+   type references fit the seven ofType levels of the query and none of whose
+   defaults is in an open-finding class ([default_okb]: not enum-typed, not
+   input-object-typed, not a top-level string needing an escape, not a list
+   containing a string with a character above U+FFFF -- and denotable: no
+   dict at a scalar-typed position, floats finite).  Covered: null, booleans,
+   integers, floats, escape-free strings, and arbitrarily nested lists of
+   null / booleans / integers / floats / strings (JSON-escaped, characters
+   up to U+FFFF) at scalar-typed positions. *)
 Theorem C15_exact_partial : forall s,
   schema_ok true s -> decode (introspect_model s full_flags) = Some (public s).
 Proof. exact decode_introspect_exact. Qed.
 Print Assumptions C15_exact_partial.
 
+(* The guard is decidable: the boolean function [schema_okb] decides it. *)
+Theorem C15_guard_decidable : forall d s, schema_okb d s = true <-> schema_ok d s.
+Proof. exact schema_okb_ok. Qed.
+Print Assumptions C15_guard_decidable.
+
 (* The full-strength statement (C15_exact_full: no restriction on defaults)
-   is false of the code as it is: one schema each with an enum-typed, an
-   input-object-typed and an escape-needing string default whose reported
-   defaultValue does not read back as the declared default. *)
+   is false of the code as it is: one schema for each of the four
+   open-finding classes (enum-typed, input-object-typed, escape-needing
+   string, astral string inside a list) whose reported defaultValue does not
+   read back as the declared default.  Each witness's default is in its class,
+   the guard rejects each witness, and accepts each once defaults are
+   disregarded. *)
 Theorem C15_defaults_refuted :
   (schema_ok false w_enum /\ decode (introspect_model w_enum full_flags) <> Some (public w_enum)) /\
   (schema_ok false w_input /\ decode (introspect_model w_input full_flags) <> Some (public w_input)) /\
   (schema_ok false w_string /\ decode (introspect_model w_string full_flags) <> Some (public w_string)) /\
+  (schema_ok false w_astral /\ decode (introspect_model w_astral full_flags) <> Some (public w_astral)) /\
+  (class_enum (s_types w_enum) (IRNamed (S_ "Color")) (PStr (S_ "RED")) = true /\
+   class_input_object (s_types w_input) (IRNamed (S_ "Pt")) (PDict [(S_ "x", PInt 2)]) = true /\
+   class_string_escape (s_types w_string) (IRNamed (S_ "String")) (PStr (S_ "he""llo")) = true /\
+   class_astral_in_list (s_types w_astral) (IRList (IRNamed (S_ "String"))) (PList [PStr [128512%N]]) = true) /\
+  (schema_okb true w_enum = false /\ schema_okb true w_input = false /\
+   schema_okb true w_string = false /\ schema_okb true w_astral = false /\
+   schema_okb false w_enum = true /\ schema_okb false w_input = true /\
+   schema_okb false w_string = true /\ schema_okb false w_astral = true) /\
   ~ C15_exact_full.
 Proof.
   exact (conj (conj w_enum_ok w_enum_refutes)
         (conj (conj w_input_ok w_input_refutes)
-        (conj (conj w_string_ok w_string_refutes) exact_full_refuted))).
+        (conj (conj w_string_ok w_string_refutes)
+        (conj (conj w_astral_ok w_astral_refutes)
+        (conj w_classes (conj w_guard_rejects exact_full_refuted)))))).
 Qed.
 Print Assumptions C15_defaults_refuted.
+
+(* The ofType nesting of the standard query: a TypeRef fragment with d nested
+   ofType levels reads back exactly the type references with at most d
+   wrappers and nothing of a deeper one; the standard query has d = 7, so a
+   valid schema with an 8-wrapper field type (no defaults at all) is not
+   reported exactly, while the same schema with 7 wrappers is. *)
+Theorem C15_wrapper_depth_refuted :
+  (forall (ts : list (itype pv)) d t, iref_depth t <= d -> decode_ref (S d) (type_ref ts d t) = Some t) /\
+  (forall (ts : list (itype pv)) d t fuel, d < iref_depth t -> decode_ref fuel (type_ref ts d t) = None) /\
+  (decode (introspect_model (w_deep 8) full_flags) = None /\
+   schema_okb true (w_deep 8) = false /\
+   schema_okb true (w_deep 7) = true /\
+   decode (introspect_model (w_deep 7) full_flags) = Some (public (w_deep 7))).
+Proof. exact (conj decode_ref_type_ref (conj decode_ref_too_deep w_deep_facts)). Qed.
+Print Assumptions C15_wrapper_depth_refuted.
 
 (* __typename reports the runtime object type at every composite position:
    (1) wherever the fields of an object type [parent] are executed, every
@@ -134,6 +173,38 @@ Proof.
 Qed.
 Print Assumptions C15_disabled.
 
+(* The same about __typename, against the C04 executor model
+   (Exec/ExecModel.v: BlockingExecutor on real AST selections with arbitrary
+   resolvers [world], custom type resolvers [tyres] and argument coercion):
+   every response key whose node selects __typename carries the name of the
+   object type being executed; below an object-typed field that is the field's
+   type, below an abstract-typed field it is the object type resolve_type
+   yields, which is a possible type of the abstract type (or the request
+   fails). *)
+Theorem C15_typename_exec :
+  forall (sch : SchemaModel.schema)
+         (coerce_args : SchemaModel.fdef -> Ast.selection -> outcome (list (str * pv)))
+         (world : ExecModel.world_t) (tyres : str -> option (pv -> ExecModel.tyname_res))
+         (sub_exec : str -> pv -> ExecModel.path -> list Ast.selection -> ExecModel.result),
+  SchemaModel.get_type sch ExecModel.s_String = Some (SchemaModel.TScalar SchemaModel.SString) ->
+  (forall node, exists a, coerce_args ExecModel.typename_fdef node = Ok a) ->
+  (forall tname parent p g r errs,
+     ExecModel.exec_groups sch coerce_args world tyres sub_exec tname parent p g = Ok (r, errs) ->
+     forall key node nodes, In (key, node :: nodes) g -> ExecModel.sel_name node = ExecModel.s_typename ->
+     In (key, PStr tname) r) /\
+  (forall nodes n p v,
+     (forall fs ifs, SchemaModel.get_type sch n = Some (SchemaModel.TObject fs ifs) ->
+        ExecModel.complete_named sch tyres sub_exec nodes n p v = sub_exec n v p (Depth.children_of nodes)) /\
+     (SchemaModel.is_abstract sch n = true ->
+        (exists rt, ExecModel.resolve_type sch tyres n v = Ok rt /\
+                    ExecModel.complete_named sch tyres sub_exec nodes n p v
+                    = sub_exec rt v p (Depth.children_of nodes) /\
+                    (exists fs ifs, SchemaModel.get_type sch rt = Some (SchemaModel.TObject fs ifs)) /\
+                    exists ps, SchemaModel.possible_types sch n = Some ps /\ mem_str rt ps = true) \/
+        (forall r, ExecModel.complete_named sch tyres sub_exec nodes n p v <> Ok r))).
+Proof. exact IntrospectExecProofs.typename_exec. Qed.
+Print Assumptions C15_typename_exec.
+
 (* ---- non-vacuity ---- *)
 Definition ex_iv (n : string) t d : iinput pv := IInput (S_ n) None t d.
 Definition ex_schema : ischema pv :=
@@ -142,10 +213,17 @@ Definition ex_schema : ischema pv :=
                                      ex_iv "s" (IRNonNull (IRList (IRNamed (S_ "String")))) None;
                                      ex_iv "t" (IRNamed (S_ "String")) (Some (PStr (S_ "hi there")));
                                      ex_iv "n" (IRNamed (S_ "Color")) (Some PNone);
-                                     ex_iv "b" (IRNamed (S_ "Boolean")) (Some (PBool true))]
+                                     ex_iv "b" (IRNamed (S_ "Boolean")) (Some (PBool true));
+                                     ex_iv "fl" (IRNonNull (IRNamed (S_ "Float"))) (Some (PFloat (S_ "-1.5e-10")));
+                                     ex_iv "l" (IRList (IRNonNull (IRList (IRNamed (S_ "String")))))
+                                           (Some (PList [PList [PStr (S_ "a""b\c"); PNone; PStr [233%N; 10%N]];
+                                                         PList []; PList [PStr []]]));
+                                     ex_iv "m" (IRList (IRNamed (S_ "Float")))
+                                           (Some (PList [PFloat (S_ "2.5e+20"); PInt 3; PBool false]))]
                       (IRList (IRNonNull (IRNamed (S_ "U")))) true (Some (S_ "old"));
                IField (S_ "g") (Some (S_ "gd")) [] (IRNamed (S_ "Node")) false None] []);
             IType (S_ "Int") None IScalar; IType (S_ "String") None IScalar; IType (S_ "Boolean") None IScalar;
+            IType (S_ "Float") None IScalar;
             IType (S_ "Color") None (IEnum [IEnumVal (S_ "RED") None false None (PInt 1);
                                             IEnumVal (S_ "BLUE") (Some (S_ "b")) true (Some []) (PInt 2)]);
             IType (S_ "Node") None (IInterface [IField (S_ "id") None [] (IRNamed (S_ "Int")) false None]);
@@ -160,14 +238,16 @@ Definition ex_schema : ischema pv :=
           (S_ "Query") None (Some (S_ "Query")).
 
 (* the hypotheses of C15_exact_partial hold of a schema with all six kinds,
-   defaults, deprecations, a union listed out of order and two directives *)
-Example C15_example_exact : schema_ok true ex_schema /\ NoDup (map t_name (s_types ex_schema)).
+   defaults of every covered class (integer, float, string, boolean, null,
+   nested lists with JSON-escaped strings), deprecations, a union listed out
+   of order and two directives *)
+Example C15_example_exact :
+  schema_ok true ex_schema /\ NoDup (map t_name (s_types ex_schema)) /\
+  decode (introspect_model ex_schema full_flags) = Some (public ex_schema).
 Proof.
-  split.
-  - unfold schema_ok, type_ok, field_ok, input_ok, ref_ok, default_ok; simpl.
-    repeat first [ apply Forall_nil | apply Forall_cons | split | exact I | reflexivity
-                 | (unfold ex_iv; simpl; lia) | intro ].
+  split; [apply schema_okb_ok; vm_compute; reflexivity|]. split.
   - simpl. repeat constructor; simpl; intuition discriminate.
+  - vm_compute. reflexivity.
 Qed.
 
 (* the probe executor: __typename at the root, at an object and at an
